@@ -355,7 +355,7 @@ class Corr:
             if vector_obs:
                 return symmetric_corr[t]
             else:
-                return np.vectorize(lambda x: x.value)(symmetric_corr[t])
+                return np.vectorize(lambda x: x.value, otypes=[np.float64])(symmetric_corr[t])
         G0 = _get_mat_at_t(t0)
 
         method = kwargs.get('method', 'eigh')
